@@ -4,6 +4,19 @@ set_option linter.unusedSimpArgs false
 /-
 GoDeleteLemmas — vocabulary and call lemmas for `GoDelete.lean`
 (`Array.FirstType`, `Array.ForEach`, `Array.DeleteElems`, `Object.ForEach`, `Object.DeleteElems`).
+
+* `advance_loopF`/`advance_tailF`/`advance_abs`: `Iter.Advance` IS `Iter.advance` from ANY store holding the receiver,
+  with the frame (what it leaves alone); `callFun_advance`/`exec1_advance`: `t = pfx.Advance()` on a local iterator
+  `pfx` through `callFun` (callee frame `envOf "i" i ++ bufEnv pj`, fields and buffers copied back: `advEnv`).
+  `peekNext_abs`/`callFun_peekNext` likewise.
+* `fillLoop`/`fill_run`/`fillTail_run`: the NOP fill loop of both `DeleteElems`, run by the interpreter, IS
+  `Iter.nopFillV lim` (index checked against the VIEW), for any loop variable / iterator name.
+  `nopFillV_eq_nopFill`, `nopFill_size`, `nopFill_get`: the model's `nopFill` against it.
+* `advance_facts`: a step of the model's `advance` that returns an element moves the cursor forward, stays in the view,
+  leaves `addNext ≥ 0`, and stands on the word it read.
+* `EndsInside`: the static condition "every element of the view ends inside the view", kept by fills (`EndsInside.fill`).
+* `ItInv`/`advEnv`/`logOf`/`encIter`/`encNI`, the callback statements (`exec1_cb_*`), and the pieces of the body of the
+  two `Object` loops in continuation style (`objHeadA_run`, `objHeadB_run`, `objFilter_run`, `objValue_run`).
 -/
 namespace SJ.GoDelete
 open SJ SJ.GoSem SJ.Generated SJ.GoIter SJ.GoObject SJ.GoSet
